@@ -198,7 +198,7 @@ class EvDomain(Domain):
                 va = ex.read(la, st, args[0]); vb = ex.read(lb, st, args[1])
                 ex.write(la, vb, st, n); ex.write(lb, va, st, n)
             return None
-        if q == 'std::invoke' and args:
+        if q in ('std::invoke', 'std::apply', 'std::invoke_r') and args:
             if isinstance(vals[0], Closure): return Sym('cb-result')        # body already run (sync_closures)
             e = self.ev(st, Ev('opaque', n, name=q, obj=self.resolve_obj(ex, args[0], st, fr), val=vals[0], args=vals[1:]), fr)
             e.argobjs = [args[0]]
